@@ -24,6 +24,32 @@ var propC05 = &pProp{
 		return pParams{grammars: 320, inputs: 6, optSets: 2, extra: 3}
 	},
 	accept: func(gp *genParser) bool { return gp.G.HasKind(gen.State) },
+	extraSpecs: func(r *rng) []*genParser {
+		// rules that reach each other (not in leading position): a bracketed list
+		// whose items are values and whose values may be bracketed lists, the state
+		// changing at the leaves. Whatever a parser works out per rule about "can
+		// this change the state" is worked out while another rule is half done.
+		lit := func(s string) *gen.Expr { return &gen.Expr{Kind: gen.Lit, Text: s} }
+		ref := func(s string) *gen.Expr { return &gen.Expr{Kind: gen.Ref, Name: s} }
+		seq := func(xs ...*gen.Expr) *gen.Expr { return &gen.Expr{Kind: gen.Seq, Subs: xs} }
+		choice := func(xs ...*gen.Expr) *gen.Expr { return &gen.Expr{Kind: gen.Choice, Subs: xs} }
+		act := func(x *gen.Expr) *gen.Expr { return &gen.Expr{Kind: gen.Action, Subs: []*gen.Expr{x}} }
+		eof := func() *gen.Expr { return &gen.Expr{Kind: gen.Not, Subs: []*gen.Expr{{Kind: gen.Any}}} }
+		leaf := func() *gen.Expr {
+			return seq(&gen.Expr{Kind: gen.Class, Ranges: []rune{'a', 'c'}}, &gen.Expr{Kind: gen.State})
+		}
+		value := func() *gen.Rule {
+			return &gen.Rule{Name: "Value", Expr: choice(act(seq(lit("("), ref("Items"), lit(")"))), leaf())}
+		}
+		items := func() *gen.Rule {
+			return &gen.Rule{Name: "Items", Expr: choice(seq(ref("Value"), lit(","), ref("Items")), ref("Value"))}
+		}
+		g1 := &gen.Grammar{Rules: []*gen.Rule{{Name: "Start", Expr: act(seq(ref("Value"), eof()))}, value(), items()}}
+		g2 := &gen.Grammar{Rules: []*gen.Rule{{Name: "Start", Expr: act(seq(ref("Items"), eof()))}, items(), value()}}
+		g1.Finish()
+		g2.Finish()
+		return []*genParser{newGenParser("pnesta", g1, nil), newGenParser("pnestb", g2, nil), newGenParser("pnestc", g1, []string{"-optimize-parser"})}
+	},
 	mkReqs: func(r *rng, gp *genParser, p pParams) []*parsersim.Request {
 		var reqs []*parsersim.Request
 		for ii, in := range drawInputs(r, gp.G, p.inputs, 40) {
